@@ -28,7 +28,7 @@ ASSUMPTIONS = ['input breadth is what the generator reaches (every table entry x
 REAL = ['smartquery.* (evaluator, every builtin)', 'regex', 'decimal', 'copy']
 STUB = ['host (binds plain data only)', 'I/O seam (audit hook)', 'entropy source']
 REACH_PROBES = ('host_phase_then_plain', 'parse_failure_then_use', 'stored_result_reused', 'builtin_as_argument', 'attr_like_string', 'fresh_construction_eval', 'every_table_entry_applied',
-                'audit_armed_evals', 'index_on_builtin')
+                'audit_armed_evals', 'index_on_builtin', 'ops_limit_hit_under_audit')
 
 
 def generate(seed, tier):
@@ -62,6 +62,9 @@ def generate(seed, tier):
         ops.append({'op': 'apply', 'pick': [ro.randrange(10 ** 6) for _ in range(3)], 'depth': ro.choice([1, 1, 2, 2, 3]),
                     'shape_seed': ro.randrange(2 ** 32), 'store': ro.choice(['name', 'name', 'item', 'none']), 'known': ro.random() < 0.5,
                     'style': gen.style(S['render']), 'entropy': ro.randrange(2 ** 32)})
+        if ro.random() < 0.12:
+            # budget fault: this call is cut short by the ops limit (the error path is evaluation under the same rules)
+            ops[-1]['budget'] = ro.choice([1, 2, 3, 5, 8, 13])
     world = {'names': dict(exerciser.HOST_NAMES), 'fresh': rc.random() < 0.03}
     if host_phase:
         # before this history the host used the same parser with a function bound in names (fetch returns a live
@@ -153,8 +156,11 @@ def execute(case, ctx):
         rec = monitors.Rec()
         rec.value_hooks = (vhook,)
         AUDIT.violations = []
-        rout = real_eval(parser, src, names, budget=20000, rec=rec, audit=True)
+        rout = real_eval(parser, src, names, budget=op.get('budget', 20000), rec=rec, audit=True)
         ctx.probe('audit_armed_evals')
+        if op.get('budget') and type(rout.exc).__name__ == 'OpsExecutionLimitExceededError':
+            ctx.fault('budget_abort')
+            ctx.probe('ops_limit_hit_under_audit')
         ctx.event(step, used, rout.kind, canon.digest(rout.brief()))
         ctx.op_kind(used[0])
         ctx.state(canon.cdigest(names, monitors.M.fn_names))
